@@ -465,7 +465,7 @@ theorem aliasFacts_ok {cfg : Cfg} (H : CfgOk cfg) (a : RustTypeAlias) (d : KtDec
   · cases hf : formatType cfg a.genericTypes a.ty with
     | ok ty =>
       rw [hf] at h; simp only [Outcome.bind] at h; cases h
-      exact ⟨ha.docs, (KeyStr.nb (KeyStr.append H.pfx ha.original)), generics_nb ha.generics,
+      exact ⟨ha.docs, (KeyStr.nb (KeyStr.append H.pfx ha.renamed)), generics_nb ha.generics,
         formatType_nb H a.genericTypes a.ty ty ha.ty hf⟩
     | err e => rw [hf] at h; cases h
     | panic s => rw [hf] at h; cases h
@@ -481,7 +481,7 @@ theorem usedGenerics_sub (e : RustEnum) (fields : List RustField) : ∀ g ∈ us
 theorem caseFacts_ok {cfg : Cfg} (H : CfgOk cfg) (e : RustEnum) (he : EnumOk e) (key : Str) (hk : KeyStr key)
     (v : RustEnumVariant) (hv : VariantOk v) (c : KtCase) (h : caseFacts cfg e key v = .ok c) : CaseOk c := by
   have hgp := generics_nb he.generics
-  have hparent : NB K (cfg.pfx ++ e.id.original) := (KeyStr.nb (KeyStr.append H.pfx (IdentStr.key he.original)))
+  have hparent : NB K (cfg.pfx ++ e.id.renamed) := (KeyStr.nb (KeyStr.append H.pfx he.renamed))
   have hname : NB K (variantName v.id.original) := IdentStr.nb (variantName_ident hv.original)
   unfold caseFacts at h
   cases v with
@@ -499,7 +499,7 @@ theorem caseFacts_ok {cfg : Cfg} (H : CfgOk cfg) (e : RustEnum) (he : EnumOk e) 
   | anonymousStruct id cs fs =>
     simp only at h; cases h
     refine ⟨hv.docs, hv.renamed, hname, hgp, ⟨hk.nb, ?_, ?_⟩, hparent, hgp⟩
-    · exact KeyStr.nb (KeyStr.append (KeyStr.append (KeyStr.append H.pfx (IdentStr.key he.original)) (IdentStr.key hv.original)) (by decide : KeyStr s%"Inner"))
+    · exact KeyStr.nb (KeyStr.append (KeyStr.append (KeyStr.append H.pfx he.renamed) (IdentStr.key hv.original)) (by decide : KeyStr s%"Inner"))
     · exact generics_nb fun g hg => he.generics g (usedGenerics_sub e fs g hg)
 
 theorem casesFacts_ok {cfg : Cfg} (H : CfgOk cfg) (e : RustEnum) (he : EnumOk e) (key : Str) (hk : KeyStr key) :
@@ -701,15 +701,15 @@ theorem structFacts_name {cfg : Cfg} (rs : RustStruct) (d : KtDecl) (h : structF
     | panic s => rw [hp] at h; cases h
 
 theorem aliasFacts_name {cfg : Cfg} (a : RustTypeAlias) (d : KtDecl) (h : aliasFacts cfg a = .ok d) :
-    declName d = cfg.pfx ++ a.id.renamed ∨ declName d = cfg.pfx ++ a.id.original := by
+    declName d = cfg.pfx ++ a.id.renamed := by
   unfold aliasFacts at h
   split at h
   · cases hp : paramFacts cfg [] false a.isRedacted (valueField a.ty) with
-    | ok p => rw [hp] at h; simp only [Outcome.bind] at h; cases h; exact .inl rfl
+    | ok p => rw [hp] at h; simp only [Outcome.bind] at h; cases h; rfl
     | err e => rw [hp] at h; cases h
     | panic s => rw [hp] at h; cases h
   · cases hf : formatType cfg a.genericTypes a.ty with
-    | ok ty => rw [hf] at h; simp only [Outcome.bind] at h; cases h; exact .inr rfl
+    | ok ty => rw [hf] at h; simp only [Outcome.bind] at h; cases h; rfl
     | err e => rw [hf] at h; cases h
     | panic s => rw [hf] at h; cases h
 
@@ -740,7 +740,7 @@ def NamesIdent : RustItem → Prop
   | .struct s => isIdentifier s.id.renamed = true
   | .enum e => isIdentifier e.id.renamed = true ∧
       ∀ v ∈ e.variants, IdentStr v.id.original
-  | .alias a => isIdentifier a.id.renamed = true ∧ isIdentifier a.id.original = true
+  | .alias a => isIdentifier a.id.renamed = true   -- (the `typealias` is named after `id.renamed` since b182a80)
   | .const _ => True
 
 /-- **every name a Kotlin declaration introduces is an identifier** when the item's names are -/
@@ -764,9 +764,8 @@ theorem declName_identifier {cfg : Cfg} (hp : IdentPrefix cfg.pfx) (it : RustIte
       rw [hd] at h; simp only [Outcome.bind] at h; cases h
       intro x hx
       simp only [List.mem_singleton] at hx; subst hx
-      rcases aliasFacts_name a _ hd with e | e <;> rw [e]
-      · exact isIdentifier_prefixed hp hn.1
-      · exact isIdentifier_prefixed hp hn.2
+      rw [aliasFacts_name a _ hd]
+      exact isIdentifier_prefixed hp hn
     | err e => rw [hd] at h; cases h
     | panic s => rw [hd] at h; cases h
   | const c => simp [itemFacts] at h
